@@ -329,10 +329,22 @@ class Exec:
         return z3.If(i < 0, i + lst.len, i)
 
     def subscript(self, base, idx, st, lineno):
+        if isinstance(base, RecRef) and isinstance(idx, VStr) and not z3.is_int_value(z3.simplify(idx.t)):
+            keys = self.rec_keys(base, st)
+            if not keys:
+                raise Unsupported("dict field %s has no scalar keys (line %d)" % (base.prefix, lineno))
+            known = z3.Or(*[idx.t == V.str_const(k) for k in keys])
+            outs, ok = self.raise_if(st, z3.Not(known), "KeyError", lineno, base.prefix)
+            if ok is not None:
+                r = ok.f[base.prefix + "." + keys[-1]]
+                for k in reversed(keys[:-1]):
+                    r = V.ite(idx.t == V.str_const(k), ok.f[base.prefix + "." + k], r)
+                outs.append((r, ok))
+            return outs
         if isinstance(base, RecRef):
-            if not isinstance(idx, VStr) or not z3.is_int_value(idx.t):
+            if not isinstance(idx, VStr) or not z3.is_int_value(z3.simplify(idx.t)):
                 raise Unsupported("dict field with non-constant key (line %d)" % lineno)
-            key = base.prefix + "." + V.str_of_code(idx.t.as_long())
+            key = base.prefix + "." + V.str_of_code(z3.simplify(idx.t).as_long())
             if key in st.f:
                 v = st.f[key]
                 if isinstance(v, SList):
@@ -378,6 +390,10 @@ class Exec:
         if r is not None:
             return r
         raise Unsupported("subscript of %r (line %d)" % (base, lineno))
+
+    def rec_keys(self, base, st):
+        pre = base.prefix + "."
+        return sorted(k[len(pre):] for k in st.f if k.startswith(pre) and "." not in k[len(pre):])
 
     def eval_slice(self, node, st):
         sl = node.slice
@@ -875,6 +891,11 @@ class Exec:
         lineno = node.lineno
         if name == "len":
             v = self.deref(args[0], st)
+            if isinstance(v, VOpt) and isinstance(v.val, SList):
+                outs, ok = self.raise_if(st, v.isnone, "TypeError", lineno, "len(None)")
+                if ok is not None:
+                    outs.append((Num(v.val.len), ok))
+                return outs
             if isinstance(v, SList):
                 return [(Num(v.len), st)]
             if isinstance(v, VTuple):
@@ -987,6 +1008,12 @@ class Exec:
             return self.list_method(base, name, args, st, node)
         if isinstance(base, VObj):
             return self.ctx.contracts.call_obj(self, base, name, args, kw, st, node)
+        if isinstance(base, RecRef) and name == "get" and len(args) == 2 and isinstance(args[0], VStr):
+            keys = self.rec_keys(base, st)
+            r = args[1]
+            for k in reversed(keys):
+                r = V.ite(args[0].t == V.str_const(k), st.f[base.prefix + "." + k], r)
+            return [(r, st)]
         if isinstance(base, VOpaque):
             r = self.ctx.contracts.call_opaque(self, base, name, args, kw, st, node)
             if r is not None:
@@ -1023,7 +1050,11 @@ class Exec:
             lst = SList(lst.len, lst.at, self.kind_of_value(args[-1]))
         if name == "append":
             s = st.fork()
-            write(s, V.list_append(lst, self.deref(args[0], st)))
+            x = self.deref(args[0], st)
+            if isinstance(x, VDyn) and lst.ekind[0] == "num":
+                # a dynamic number stored in a numeric list (the code has compared it with numbers before)
+                x = Num(z3.ToInt(x.num)) if lst.ekind[1] == "int" else Num(x.num)
+            write(s, V.list_append(lst, x))
             return [(NONE, s)]
         if name == "pop":
             if args:
@@ -1272,10 +1303,22 @@ class Exec:
         raise Unsupported("attribute assignment on %r (line %d)" % (base, lineno))
 
     def set_item(self, base, idx, v, st, tgt, lineno):
+        if isinstance(base, RecRef) and isinstance(idx, VStr) and not z3.is_int_value(z3.simplify(idx.t)):
+            # assignment under a symbolic key: the matching known key is updated; an unknown key creates a new
+            # entry, which is outside the modelled record -> recorded in the ghost flag "<prefix>.__newkey__"
+            keys = self.rec_keys(base, st)
+            s = st.fork()
+            for k in keys:
+                fk = base.prefix + "." + k
+                s.f[fk] = V.ite(idx.t == V.str_const(k), v, s.f[fk])
+            known = z3.Or(*[idx.t == V.str_const(k) for k in keys]) if keys else z3.BoolVal(False)
+            prev = s.ghost.get(base.prefix + ".__newkey__", z3.BoolVal(False))
+            s.ghost[base.prefix + ".__newkey__"] = z3.Or(prev, z3.Not(known))
+            return [Outcome("next", s)]
         if isinstance(base, RecRef):
-            if not isinstance(idx, VStr) or not z3.is_int_value(idx.t):
+            if not isinstance(idx, VStr) or not z3.is_int_value(z3.simplify(idx.t)):
                 raise Unsupported("dict field with non-constant key")
-            key = base.prefix + "." + V.str_of_code(idx.t.as_long())
+            key = base.prefix + "." + V.str_of_code(z3.simplify(idx.t).as_long())
             s = st.fork()
             s.f[key] = v
             return [Outcome("next", s)]
@@ -1421,6 +1464,11 @@ class Exec:
                         tests.extend(self.branch(s, V.truth(self.deref(c, s)), node.lineno))
             else:
                 lst = self.deref(sh.loc["__it%d" % ordinal], sh)
+                if isinstance(lst, VOpt) and isinstance(lst.val, SList):
+                    ctx.oblige("loop%d.iterable-not-None" % ordinal, sh, [z3.Not(lst.isnone)], "noexc", node.lineno, ("C20",))
+                    sh.assume(z3.Not(lst.isnone))
+                    lst = lst.val
+                    sh.loc["__it%d" % ordinal] = lst
                 if not isinstance(lst, SList):
                     raise Unsupported("for over %r (line %d)" % (lst, node.lineno))
                 i = sh.loc[idxname].t
@@ -1429,6 +1477,8 @@ class Exec:
                     if b:
                         s2 = s
                         lst2 = self.deref(s2.loc["__it%d" % ordinal], s2)
+                        if isinstance(lst2, VOpt):
+                            lst2 = lst2.val
                         for o in self.assign(node.target, lst2.at(i), s2, node.lineno):
                             o.state.loc[idxname] = Num(i + 1)
                             tests.append((True, o.state))
